@@ -206,8 +206,8 @@ func key(j *job, sig string) string {
 	case "ccitt":
 		k += "/" + strings.TrimPrefix(c06.CCITTCombo(*j.CC), "ccitt/")
 	}
-	if j.Variant != "" && j.Variant != "bulk" && j.Variant != "big" {
-		k += "/" + j.Variant
+	if v := strings.TrimSuffix(j.Variant, "-tlc"); v != "" && v != "bulk" && v != "big" {
+		k += "/" + v
 	}
 	return k + "/" + sig
 }
